@@ -13,34 +13,51 @@
 (*                                                                          *)
 (* The rendered module (harness/adapters/pymini_data.py):                   *)
 (*   G = 0                      <<8,1>>   module level, executed at import  *)
-(*   class Box: pass            <<8,2>>                                     *)
-(*   def h(x):                  <<8,3>>   (the helpers use the names of f's *)
-(*       y = x + 1              <<9,1>>    locals: scopes must be kept apart)*)
-(*       return y               <<9,2>>                                     *)
-(*   def g(y):                  <<8,4>>                                     *)
-(*       if y:                  <<9,3>>                                     *)
-(*           return y + G       <<9,4>>                                     *)
-(*       return 0               <<9,5>>                                     *)
+(*   class Box:                 <<8,2>>                                     *)
+(*       c3 = 2                 <<8,6>>   class-level attributes (class     *)
+(*       _c4 = 3                <<8,7>>   body, executed at import)         *)
+(*   def h(x): ...              <<8,3>>   helper functions: their bodies    *)
+(*   def g(y): ...              <<8,4>>   are programs of the same language *)
+(*   def k(x): ...              <<8,8>>   (HelperBody), the lines of helper *)
+(*   def m(y): ...              <<8,9>>   number i have the paths <<9,i>> \o *)
+(*                                        path inside the body; the helpers *)
+(*                                        use the names of f's locals:      *)
+(*                                        scopes must be kept apart         *)
 (*   def f(a, b):               <<8,5>>                                     *)
 (*       global G                                                           *)
 (*       <program>              paths as in PyMini: (tag, index) pairs,     *)
-(*                              tags 0 top level, 1 body/then, 2 else       *)
+(*                              tags 0 top level, 1 body/then, 2 else,      *)
+(*                              3 body of an inner function (closure)       *)
 (* and the test case is   var_0 = f(<a>, <b>)   (instance path <<7,1>>).    *)
 (*                                                                          *)
 (* Statements (one per line):                                               *)
 (*  [t|->"const", x, c]         x = c                                       *)
 (*  [t|->"bin", x, y, z, op]    x = y + z | x = y * z                       *)
 (*  [t|->"copy", x, y]          x = y      (also G = y, x = G, p = o)        *)
-(*  [t|->"call", x, fn, y]      x = h(y) | x = g(y)                         *)
+(*  [t|->"inc", x, y, c]        x = y + c  (c a constant, x = y - 1 if c<0) *)
+(*  [t|->"call", x, fn, y]      x = fn(y)   fn a helper h, g, k, m or the   *)
+(*                              inner function r                            *)
+(*  [t|->"do", fn, y]           fn(y)       (value dropped; fn = w)         *)
+(*  [t|->"defr", v]             def r(z):            (a closure that READS  *)
+(*                                  return v + z      the local v of f)     *)
+(*  [t|->"defw", v]             def w(z):            (a closure that WRITES *)
+(*                                  nonlocal v        the local v of f)     *)
+(*                                  v = z + 1                               *)
 (*  [t|->"new", x]              x = Box()                                   *)
 (*  [t|->"mk", x, kd, y]        x = [y, 0] (kd = "list") | x = {"k0": y}    *)
-(*  [t|->"store", o, f, y]      o.qf = y | o[f] = y | o["kf"] = y           *)
-(*  [t|->"load", x, o, f]       x = o.qf | x = o[f] | x = o["kf"]           *)
+(*  [t|->"store", o, f, y]      o.<attr f> = y | o[f] = y | o["kf"] = y     *)
+(*  [t|->"load", x, o, f]       x = o.<attr f> | x = o[f] | x = o["kf"]     *)
+(*                              attributes of a Box: q0, q1, _q2 (instance  *)
+(*                              attributes), c3, _c4 (class-level: a load   *)
+(*                              through an instance that has no attribute   *)
+(*                              of that name reads the class attribute)     *)
 (*  [t|->"if", cv, a, b]        if cv: a else: b    (cv a variable)         *)
 (*  [t|->"for", k, a]           for _i in range(k): a                       *)
 (*  [t|->"while", cv, a]        while cv: a          (at most MaxIter rounds) *)
 (*  [t|->"dec", x]              x = x - 1                                   *)
 (*  [t|->"ret", x]              return x                                    *)
+(*  [t|->"retb", y, z]          return y + z                                *)
+(*  [t|->"retc", c]             return c                                    *)
 (* (how a store/load is written follows the variable name: o, p hold Box    *)
 (* objects, l a list, d a dict).                                            *)
 (*                                                                          *)
@@ -53,8 +70,46 @@
 (* variable that holds the reference.  The stricter relation that also      *)
 (* counts the reference is computed next to it (field s, SliceStrict) and   *)
 (* only reported as drift.                                                  *)
+(*                                                                          *)
+(* Calls.  `x = fn(y)` is three instances on the line of the call: the call *)
+(* (reads the name fn), the binding of the parameter (reads y), and, after  *)
+(* the callee returned, the assignment (reads the returned value = the      *)
+(* callee's return instance).  The callee runs in a fresh frame (its locals *)
+(* are undefined except the parameter) and every statement instance of the  *)
+(* callee is control dependent on the call instance (the callee runs        *)
+(* because of the call): a callee that changes a global or a captured       *)
+(* variable pulls its call site into the slice of a later read.             *)
+(*                                                                          *)
+(* Closures.  `def r(z)` / `def w(z)` inside f define the local names r, w  *)
+(* (the def line is the definition a later call reads); the def line does   *)
+(* NOT read the captured variable (the cell is captured, not its value).    *)
+(* The frame of an inner function shares the captured variable v with f:    *)
+(* the body of r reads the LAST definition of v at the time of the call     *)
+(* (an assignment in f before or after the def, or the body of w), the body *)
+(* of w is a definition of v for every later read in f, r or w.             *)
 (***************************************************************************)
 EXTENDS Naturals, Integers, Sequences, FiniteSets, TLC
+
+(* ---- constructors ---- *)
+Const(x, c) == [t |-> "const", x |-> x, c |-> c]
+Bin(x, y, z, op) == [t |-> "bin", x |-> x, y |-> y, z |-> z, op |-> op]
+Inc(x, y, c) == [t |-> "inc", x |-> x, y |-> y, c |-> c]
+Copy(x, y) == [t |-> "copy", x |-> x, y |-> y]
+Call(x, fn, y) == [t |-> "call", x |-> x, fn |-> fn, y |-> y]
+Do(fn, y) == [t |-> "do", fn |-> fn, y |-> y]
+DefR(v) == [t |-> "defr", v |-> v]
+DefW(v) == [t |-> "defw", v |-> v]
+New(x) == [t |-> "new", x |-> x]
+Mk(x, kd, y) == [t |-> "mk", x |-> x, kd |-> kd, y |-> y]
+Store(o, f, y) == [t |-> "store", o |-> o, f |-> f, y |-> y]
+Load(x, o, f) == [t |-> "load", x |-> x, o |-> o, f |-> f]
+If(cv, a, b) == [t |-> "if", cv |-> cv, a |-> a, b |-> b]
+For(k, a) == [t |-> "for", k |-> k, a |-> a]
+While(cv, a) == [t |-> "while", cv |-> cv, a |-> a]
+Dec(x) == [t |-> "dec", x |-> x]
+Ret(x) == [t |-> "ret", x |-> x]
+RetB(y, z) == [t |-> "retb", y |-> y, z |-> z]
+RetC(c) == [t |-> "retc", c |-> c]
 
 IntV(n) == [k |-> "i", v |-> n]
 RefV(r) == [k |-> "r", v |-> r]
@@ -62,28 +117,51 @@ FunV == [k |-> "f", v |-> 0]
 Undef == [k |-> "u", v |-> 0]
 Truthy(val) == IF val.k = "i" THEN val.v # 0 ELSE TRUE
 
-Locals == {"a", "b", "x", "y", "o", "p", "l", "d"}
-Globals == {"G", "Box", "h", "g", "f"}
+(* ---- the module-level helper functions (rendered by the adapter from the same table) ---- *)
+(* h: straight line; g: `if` with an early return, reads the global; k: the value of the     *)
+(* condition is computed on its own line, if / else; m: a loop with an `if` inside           *)
+Helpers == {"h", "g", "k", "m"}
+HelperIdx(fn) == CASE fn = "h" -> 1 [] fn = "g" -> 2 [] fn = "k" -> 3 [] fn = "m" -> 4
+HelperParam(fn) == CASE fn = "h" -> "x" [] fn = "g" -> "y" [] fn = "k" -> "x" [] fn = "m" -> "y"
+HelperBody(fn) ==
+  CASE fn = "h" -> <<Inc("y", "x", 1), Ret("y")>>
+    [] fn = "g" -> <<If("y", <<RetB("y", "G")>>, <<>>), RetC(0)>>
+    [] fn = "k" -> <<Inc("y", "x", -1), If("y", <<Const("x", 2)>>, <<Const("x", 1)>>), Ret("x")>>
+    [] fn = "m" -> <<Inc("x", "y", 1), For(2, <<If("y", <<Inc("x", "x", 1)>>, <<>>), Dec("y")>>), Ret("x")>>
+(* the inner functions of f: parameter z, one body line at <path of the def> \o <<3, 1>> *)
+Inner == {"r", "w"}
+InnerParam == "z"
+InnerBody(fn, v) == IF fn = "r" THEN <<RetB(v, InnerParam)>> ELSE <<Inc(v, InnerParam, 1)>>
+
+Locals == {"a", "b", "x", "y", "o", "p", "l", "d", "r", "w", "z"}
+Globals == {"G", "Box", "h", "g", "f", "k", "m"}
 Names == Locals \cup Globals
 Refs == 1..4
-Keys == {0, 1}
+Keys == 0..4
 Cells == Refs \X Keys
+(* class-level attributes of Box: field -> the instance of the class-body line that defines it, its value *)
+ClassFields == {3, 4}
+ClassInst(f) == IF f = 3 THEN 6 ELSE 7
+ClassVal(f) == IF f = 3 THEN 2 ELSE 3
 
 ModLine(i) == <<8, i>>
 TestPath == <<7, 1>>
-(* instances 1..5 are the module-level definitions executed by the import *)
-ModInsts == [i \in 1..5 |-> [p |-> ModLine(i), d |-> {}, s |-> {}]]
+(* instances 1..9 are the module-level definitions executed by the import *)
+NMod == 9
+ModInsts == [i \in 1..NMod |-> [p |-> ModLine(i), d |-> {}, s |-> IF i \in {6, 7} THEN {2} ELSE {}]]
+ModDef(n) == CASE n = "G" -> {1} [] n = "Box" -> {2} [] n = "h" -> {3} [] n = "g" -> {4} [] n = "f" -> {5}
+               [] n = "k" -> {8} [] n = "m" -> {9} [] OTHER -> {}
 
 Init0(a, b) ==
   [insts |-> ModInsts,
    env |-> [n \in Names |-> CASE n = "a" -> IntV(a) [] n = "b" -> IntV(b) [] n = "G" -> IntV(0)
-                                [] n \in {"Box", "h", "g", "f"} -> FunV [] OTHER -> Undef],
-   ld |-> [n \in Names |-> CASE n = "G" -> {1} [] n = "Box" -> {2} [] n = "h" -> {3} [] n = "g" -> {4}
-                               [] n = "f" -> {5} [] OTHER -> {}],
+                                [] n \in {"Box", "f"} \cup Helpers -> FunV [] OTHER -> Undef],
+   ld |-> [n \in Names |-> ModDef(n)],
    heap |-> [c \in Cells |-> Undef],
    hld |-> [c \in Cells |-> {}],
    rk |-> [r \in Refs |-> "none"],
    nref |-> 0,
+   fn |-> [i \in Inner |-> [p |-> <<>>, v |-> ""]],   \* the inner functions: path of the executed def, captured variable
    cd |-> {},          \* instances the next statement is control dependent on
    flow |-> "n",       \* "n" normal, "r" returned, "x" raised
    ret |-> 0,          \* the instance of the executed return
@@ -102,40 +180,47 @@ IsDef(val) == val.k # "u"
 
 RECURSIVE MayExitBlock(_), MayExit(_)
 MayExitBlock(blk) == \E i \in DOMAIN blk : MayExit(blk[i])
-MayExit(s) == CASE s.t = "ret" -> TRUE
+MayExit(s) == CASE s.t \in {"ret", "retb", "retc"} -> TRUE
                 [] s.t = "if" -> MayExitBlock(s.a) \/ MayExitBlock(s.b)
                 [] s.t \in {"for", "while"} -> MayExitBlock(s.a)
-                [] OTHER -> FALSE
+                [] OTHER -> FALSE        \* (the return inside `def r` leaves r, not the enclosing function)
 
 Arith(op, m, n) == IF op = "mul" THEN m * n ELSE m + n
 
-(* x = h(y): the callee's line `y = x + 1` reads the argument, `return y` reads the callee's local *)
-CallH(s, p, st) ==
-  LET n == NextId(st)
-      st1 == AddInst(st, <<9, 1>>, st.ld[s.y], {})
-      st2 == AddInst(st1, <<9, 2>>, {n}, {})
-      st3 == AddInst(st2, p, {n + 1} \cup st.ld["h"], {})
-  IN Def(st3, s.x, IntV(st.env[s.y].v + 1), n + 2)
-
-(* x = g(y): `if y:` decides between `return y + G` (reads the global) and `return 0` *)
-CallG(s, p, st) ==
-  LET n == NextId(st)
-      vy == st.env[s.y]
-      st1 == AddInst(st, <<9, 3>>, st.ld[s.y], {})
-      tr == Truthy(vy)
-      st2 == IF tr THEN AddInst(st1, <<9, 4>>, {n} \cup st.ld[s.y] \cup st.ld["G"], {})
-                   ELSE AddInst(st1, <<9, 5>>, {n}, {})
-      st3 == AddInst(st2, p, {n + 1} \cup st.ld["g"], {})
-      val == IF tr THEN IntV(vy.v + st.env["G"].v) ELSE IntV(0)
-  IN IF tr /\ ~IsInt(st.env["G"]) THEN [st2 EXCEPT !.flow = "x"] ELSE Def(st3, s.x, val, n + 2)
-
-RECURSIVE ExecFrom(_, _, _, _, _), ExecStmt(_, _, _), ForLoop(_, _, _, _, _), WhileLoop(_, _, _, _, _)
+RECURSIVE ExecFrom(_, _, _, _, _), ExecStmt(_, _, _), ForLoop(_, _, _, _, _), WhileLoop(_, _, _, _, _),
+          CallFn(_, _, _, _)
 
 (* statements of a block are executed in order while control flows normally *)
 ExecFrom(blk, p, tag, st, i) ==
   IF i > Len(blk) \/ st.flow # "n" THEN st
   ELSE ExecFrom(blk, p, tag, ExecStmt(blk[i], p \o <<tag, i>>, st), i + 1)
 ExecBlock(blk, p, tag, st) == ExecFrom(blk, p, tag, st, 1)
+
+(* x = fn(y) (assign = TRUE) or fn(y) at path p.  Frame: the callee sees the globals, its parameter and, for an   *)
+(* inner function, the captured variable of f (shared: same value, same last definition, and what the callee      *)
+(* assigns to it stays); all other locals are the callee's own.                                                   *)
+CallFn(s, p, st, assign) ==
+  LET inner == s.fn \in Inner
+      par == IF inner THEN InnerParam ELSE HelperParam(s.fn)
+      shared == IF inner THEN {st.fn[s.fn].v} ELSE {}
+      body == IF inner THEN InnerBody(s.fn, st.fn[s.fn].v) ELSE HelperBody(s.fn)
+      n == NextId(st)
+      st0 == AddInst(AddInst(st, p, st.ld[s.fn], {}), p, st.ld[s.y], {})     \* n: the call, n + 1: the binding
+      keep(nm) == nm \in Globals \/ nm \in shared
+      callee == [st0 EXCEPT !.env = [nm \in Names |-> IF keep(nm) THEN st0.env[nm]
+                                                      ELSE IF nm = par THEN st.env[s.y] ELSE Undef],
+                            !.ld = [nm \in Names |-> IF keep(nm) THEN st0.ld[nm]
+                                                     ELSE IF nm = par THEN {n + 1} ELSE {}],
+                            !.cd = {n}]
+      st1 == IF inner THEN ExecBlock(body, st.fn[s.fn].p, 3, callee)
+                      ELSE ExecBlock(body, <<9, HelperIdx(s.fn)>>, 0, callee)
+      back == [st1 EXCEPT !.env = [nm \in Names |-> IF keep(nm) THEN st1.env[nm] ELSE st0.env[nm]],
+                          !.ld = [nm \in Names |-> IF keep(nm) THEN st1.ld[nm] ELSE st0.ld[nm]],
+                          !.cd = st.cd, !.flow = "n"]
+  IN IF st1.flow \in {"x", "t"} THEN st1
+     ELSE IF ~assign THEN back                                       \* the value (or None) is dropped
+     ELSE IF st1.flow # "r" THEN [back EXCEPT !.flow = "x"]           \* (None is not a value of the fragment)
+     ELSE Def(AddInst(back, p, {st1.ret, n}, {}), s.x, st1.retv, NextId(back))
 
 (* st.cd is the control context of this evaluation of the header; `outer` the context of the loop statement *)
 ForLoop(s, p, st, j, outer) ==
@@ -167,11 +252,18 @@ ExecStmt(s, p, st) ==
          THEN Def(AddInst(st, p, st.ld[s.y] \cup st.ld[s.z], {}), s.x,
                   IntV(Arith(s.op, st.env[s.y].v, st.env[s.z].v)), n)
          ELSE Err(st, p)
+    [] s.t = "inc" ->
+         IF IsInt(st.env[s.y]) THEN Def(AddInst(st, p, st.ld[s.y], {}), s.x, IntV(st.env[s.y].v + s.c), n)
+         ELSE Err(st, p)
     [] s.t = "copy" ->
          IF IsDef(st.env[s.y]) THEN Def(AddInst(st, p, st.ld[s.y], {}), s.x, st.env[s.y], n) ELSE Err(st, p)
-    [] s.t = "call" ->
-         IF ~IsInt(st.env[s.y]) THEN Err(st, p)
-         ELSE IF s.fn = "h" THEN CallH(s, p, st) ELSE CallG(s, p, st)
+    [] s.t \in {"call", "do"} ->
+         IF ~IsInt(st.env[s.y]) \/ st.env[s.fn].k # "f" THEN Err(st, p)
+         ELSE CallFn(s, p, st, s.t = "call")
+    \* def r(z) / def w(z): defines the local name; the captured variable is not read here
+    [] s.t \in {"defr", "defw"} ->
+         LET nm == IF s.t = "defr" THEN "r" ELSE "w"
+         IN [Def(AddInst(st, p, {}, {}), nm, FunV, n) EXCEPT !.fn[nm] = [p |-> p, v |-> s.v]]
     [] s.t = "new" ->
          LET r == st.nref + 1
          IN [Def(AddInst(st, p, st.ld["Box"], {}), s.x, RefV(r), n) EXCEPT !.nref = r, !.rk[r] = "box"]
@@ -190,8 +282,12 @@ ExecStmt(s, p, st) ==
     [] s.t = "load" ->
          IF ~IsRef(st.env[s.o]) THEN Err(st, p)
          ELSE LET c == <<st.env[s.o].v, s.f>>
-              IN IF ~IsDef(st.heap[c]) THEN Err(st, p)
-                 ELSE Def(AddInst(st, p, st.hld[c], st.ld[s.o]), s.x, st.heap[c], n)
+              IN IF IsDef(st.heap[c]) THEN Def(AddInst(st, p, st.hld[c], st.ld[s.o]), s.x, st.heap[c], n)
+                 \* no instance attribute of that name: the class attribute, defined by the line of the class body
+                 \* (strict: the class body ran because of `class Box:`)
+                 ELSE IF st.rk[c[1]] = "box" /\ s.f \in ClassFields
+                      THEN Def(AddInst(st, p, {ClassInst(s.f)}, st.ld[s.o]), s.x, IntV(ClassVal(s.f)), n)
+                 ELSE Err(st, p)
     [] s.t = "if" ->
          IF ~IsDef(st.env[s.cv]) THEN Err(st, p)
          ELSE LET st1 == [AddInst(st, p, st.ld[s.cv], {}) EXCEPT !.cd = {n}]
@@ -208,6 +304,11 @@ ExecStmt(s, p, st) ==
     [] s.t = "ret" ->
          IF ~IsDef(st.env[s.x]) THEN Err(st, p)
          ELSE [AddInst(st, p, st.ld[s.x], {}) EXCEPT !.flow = "r", !.ret = n, !.retv = st.env[s.x]]
+    [] s.t = "retb" ->
+         IF ~IsInt(st.env[s.y]) \/ ~IsInt(st.env[s.z]) THEN Err(st, p)
+         ELSE [AddInst(st, p, st.ld[s.y] \cup st.ld[s.z], {}) EXCEPT
+                 !.flow = "r", !.ret = n, !.retv = IntV(st.env[s.y].v + st.env[s.z].v)]
+    [] s.t = "retc" -> [AddInst(st, p, {}, {}) EXCEPT !.flow = "r", !.ret = n, !.retv = IntV(s.c)]
 
 (* backward closure from instance `root`; dependences always point to earlier instances *)
 Closure(I, root, strict) ==
@@ -238,27 +339,13 @@ Run(prog, a, b) ==
 
 (* ---- well-formedness ---- *)
 RECURSIVE ValidBlock(_), ValidStmt(_)
+IsReturn(s) == s.t \in {"ret", "retb", "retc"}
 ValidBlock(blk) ==
   /\ \A i \in DOMAIN blk : ValidStmt(blk[i])
-  /\ \A i \in 1..(Len(blk) - 1) : blk[i].t # "ret"     \* the compiler drops code after a return
+  /\ \A i \in 1..(Len(blk) - 1) : ~IsReturn(blk[i])     \* the compiler drops code after a return
 ValidStmt(s) ==
   CASE s.t = "if" -> s.a # <<>> /\ ValidBlock(s.a) /\ ValidBlock(s.b)
     [] s.t \in {"for", "while"} -> s.a # <<>> /\ ValidBlock(s.a)
     [] OTHER -> TRUE
 ValidProg(prog) == prog # <<>> /\ ValidBlock(prog) /\ prog[Len(prog)].t = "ret"
-
-(* ---- constructors ---- *)
-Const(x, c) == [t |-> "const", x |-> x, c |-> c]
-Bin(x, y, z, op) == [t |-> "bin", x |-> x, y |-> y, z |-> z, op |-> op]
-Copy(x, y) == [t |-> "copy", x |-> x, y |-> y]
-Call(x, fn, y) == [t |-> "call", x |-> x, fn |-> fn, y |-> y]
-New(x) == [t |-> "new", x |-> x]
-Mk(x, kd, y) == [t |-> "mk", x |-> x, kd |-> kd, y |-> y]
-Store(o, f, y) == [t |-> "store", o |-> o, f |-> f, y |-> y]
-Load(x, o, f) == [t |-> "load", x |-> x, o |-> o, f |-> f]
-If(cv, a, b) == [t |-> "if", cv |-> cv, a |-> a, b |-> b]
-For(k, a) == [t |-> "for", k |-> k, a |-> a]
-While(cv, a) == [t |-> "while", cv |-> cv, a |-> a]
-Dec(x) == [t |-> "dec", x |-> x]
-Ret(x) == [t |-> "ret", x |-> x]
 =============================================================================
